@@ -358,6 +358,7 @@ namespace vf
    inline int corpus_main( int argc, char** argv )
    {
       const args A = parse_args( argc, argv );
+      install_window_hook();
       report R;
       R.max_samples = 6;
       const std::string prop = A.get( "prop", "C01" );
